@@ -13,15 +13,26 @@
 (***************************************************************************)
 EXTENDS Integers
 
+\* Apalache type aliases (comments for TLC):
+\* @typeAlias: hdr = { kind: Str, a: Int, b: Int, n: Int };
+\* @typeAlias: cls = { class: Str, a: Int, b: Int };
+\* @typeAlias: resp = { status: Int, cr: Str, first: Int, last: Int, clen: Int, blen: Int, slice_ok: Int, full_ok: Int };
+HttpRange_aliases == TRUE
+
 Min(x, y) == IF x < y THEN x ELSE y
 Max(x, y) == IF x > y THEN x ELSE y
 
 \* ---- RFC 7233 section 2.1 ---------------------------------------------------
+\* @type: (Int, Int) => $cls;
 Sat(a, b)  == [class |-> "sat", a |-> a, b |-> b]
+\* @type: $cls;
 Unsat      == [class |-> "unsat", a |-> 0, b |-> 0]
+\* @type: $cls;
 Invalid    == [class |-> "nonsingle", a |-> 0, b |-> 0]
+\* @type: $cls;
 Full       == [class |-> "full", a |-> 0, b |-> 0]
 
+\* @type: ($hdr, Int) => $cls;
 Rfc7233(h, L) ==
     CASE h.kind = "absent" -> Full
       [] h.kind = "single" ->
@@ -37,22 +48,27 @@ Rfc7233(h, L) ==
 \* r = [status, cr ("none" | "star" | "range"), first, last, clen (length named in Content-Range),
 \*      blen (body length), slice_ok (body = full[first..last], computed by the projection),
 \*      full_ok (body = full representation)]
+\* @type: ($resp, Int) => Bool;
 Consistent206(r, L) ==
     /\ r.status = 206 /\ r.cr = "range" /\ r.clen = L
     /\ 0 <= r.first /\ r.first <= r.last /\ r.last < L
     /\ r.blen = r.last - r.first + 1 /\ r.slice_ok = 1
 
+\* @type: ($hdr, Int, $resp) => Bool;
 C13_SatisfiableIs206WithExactSlice(h, L, r) ==
     Rfc7233(h, L).class = "sat" =>
         Consistent206(r, L) /\ r.first = Rfc7233(h, L).a /\ r.last = Rfc7233(h, L).b
 
+\* @type: ($hdr, Int, $resp) => Bool;
 C13_SuffixLongerThanResourceIsWhole(h, L, r) ==
     (h.kind = "suffix" /\ h.n >= L /\ L > 0) =>
         r.status = 206 /\ r.first = 0 /\ r.last = L - 1 /\ r.blen = L /\ r.full_ok = 1
 
+\* @type: ($hdr, Int, $resp) => Bool;
 C13_Unsatisfiable416StarLength(h, L, r) ==
     Rfc7233(h, L).class = "unsat" => r.status = 416 /\ r.cr = "star" /\ r.clen = L
 
+\* @type: ($hdr, Int, $resp) => Bool;
 C13_NonSingleIs400OrConsistent(h, L, r) ==
     Rfc7233(h, L).class = "nonsingle" =>
         \/ r.status = 400
@@ -61,14 +77,17 @@ C13_NonSingleIs400OrConsistent(h, L, r) ==
         \/ Consistent206(r, L)
 
 \* mandatory = 1 for resources that require a Range header (on-demand media files)
+\* @type: ($hdr, Int, $resp, Int) => Bool;
 C13_AbsentIsFullOr400WhereMandatory(h, L, r, mandatory) ==
     h.kind = "absent" =>
         \/ r.status = 200 /\ r.full_ok = 1
         \/ mandatory = 1 /\ r.status = 400
 
+\* @type: ($resp) => Bool;
 C13_Never5xx(r) == r.status < 500
 
 \* ---- implementation level: RequestHandlerBase.get_http_range + the callers --------
+\* @type: ($hdr, Int) => $resp;
 ImplRange(h, L) ==
     LET resp(st, cr, f, l, bl, so, fo) ==
             [status |-> st, cr |-> cr, first |-> f, last |-> l, clen |-> L, blen |-> bl, slice_ok |-> so, full_ok |-> fo]
@@ -81,6 +100,7 @@ ImplRange(h, L) ==
           [] h.kind = "from"   -> ranged(h.a, L - 1)
           [] h.kind = "suffix" -> ranged(Max(0, L - h.n), L - 1)
 
+\* @type: ($hdr, Int, $resp, Int) => Bool;
 AllClauses(h, L, r, mandatory) ==
     /\ C13_SatisfiableIs206WithExactSlice(h, L, r)
     /\ C13_SuffixLongerThanResourceIsWhole(h, L, r)
